@@ -25,7 +25,7 @@ class CDevice2(Device):
     return np.ones(len(self))*self._cost_fn.deriv(s) + p
 
   def hess(self, s, p=0):
-    return np.eye(len(self))*self._cost_fn.hess(s)
+    return self._cost_fn.hess(s.reshape(len(self)))
 
   @property
   def p_h(self):
